@@ -182,6 +182,20 @@ theorem tolmesh_msg_sound (o : Opts) (s : St) (out : Out) (h : (step o s out).c.
   have hlt : (mstep o s out).msi < o.tolExp := by simpa [coutOf] using hm
   exact zpow_lt_zpow_right₀ (by norm_num) hlt
 
+/-- WHY THE INTERNAL TOLERANCE IS ROUNDED UP: the run stops when the mesh `2^m` falls below the internal tolerance `2^k`, where `k` is the
+    smallest exponent with `tol_mesh ≤ 2^k` (`k = ceil(log2 tol_mesh)`, i.e. `2^(k-1) < tol_mesh`).  Then the mesh at that stop is below the
+    USER's `tol_mesh` as well - also when `tol_mesh` is itself a power of two (`tol_mesh = 2^k`).  (With `k + 1` in place of `k`, as
+    `floor + 1` gives for exact powers of two, the hypothesis `2^(k-1) < tol_mesh` fails and the run can stop ON the tolerance.) -/
+theorem below_internal_tol_below_user_tol (tol : Rat) (k m : Int) (h1 : (2 : Rat) ^ (k - 1) < tol) (h2 : m < k) :
+    (2 : Rat) ^ m < tol := by
+  have hle : (2 : Rat) ^ m ≤ (2 : Rat) ^ (k - 1) := zpow_le_zpow_right₀ (by norm_num) (by omega)
+  exact lt_of_le_of_lt hle h1
+
+/-- ... and the rounding loses nothing: a mesh that is not yet below the internal tolerance is not below the user's either. -/
+theorem not_below_internal_tol_not_below_user_tol (tol : Rat) (k m : Int) (h1 : tol ≤ (2 : Rat) ^ k) (h2 : k ≤ m) :
+    tol ≤ (2 : Rat) ^ m :=
+  le_trans h1 (zpow_le_zpow_right₀ (by norm_num) h2)
+
 /-- two mesh states that differ at most in the overflow counter -/
 def SameMesh (m m' : MSt) : Prop := m.msi = m'.msi ∧ m.ssi = m'.ssi ∧ m.spree = m'.spree
 
